@@ -58,7 +58,7 @@ func c08Setup(rc *RunCtx) simrt.Config {
 	c.kind = []TransportKind{TkTCP, TkTCPPipeline, TkPipelineStream, TkReuse}[r.Choose(4)]
 	c.callers = 1 + r.Choose(4)
 	for i := 0; i < c.callers; i++ {
-		c.perCall = append(c.perCall, 1+r.Choose(8))
+		c.perCall = append(c.perCall, 1+r.Choose(widen(8, 30)))
 	}
 	c.burst = []int{0, 0, 3, 6, 8}[r.Choose(5)]
 	c.massKill = c.burst >= 6 && r.Choose(2) == 0
